@@ -162,7 +162,13 @@ pub fn std_roots() -> Vec<(&'static str, Vec<Op>)> {
     shifted.push(Op::Swap { a_to_b: true, exact_in: true, amount: u64::MAX >> 8, lim: Lim::NextTick, v2: false });
     let mut above = fund.clone();
     above.push(Op::Swap { a_to_b: false, exact_in: false, amount: 8_000_000, lim: Lim::None, v2: true });
-    vec![("fresh", vec![]), ("funded", fund), ("fee-laden", feeladen), ("shifted", shifted), ("above", above)]
+    // a one-unit position next to large ones in the same range: the fees it accrues floor to zero while the growth is not zero
+    let dust_beside_big = vec![
+        Op::Inc { pos: 0, liq: 1, v2: true },
+        Op::Inc { pos: 1, liq: BIG, v2: true },
+        Op::Inc { pos: 2, liq: 50_000_000, v2: false },
+    ];
+    vec![("fresh", vec![]), ("funded", fund), ("fee-laden", feeladen), ("shifted", shifted), ("above", above), ("dust-beside-big", dust_beside_big)]
 }
 
 /// The W-std alphabet, simplest first. v1 and v2 instruction variants alternate.
@@ -196,6 +202,12 @@ pub fn std_alphabet(npos: u8, with_admin: bool) -> Vec<Op> {
     // that accepts one produces a position whose claims every later state is judged with (real withdrawal on a copy)
     a.push(Op::Repos { pos: 0, lower: 128, upper: -128, liq: BIG });
     a.push(Op::Repos { pos: 1, lower: 128, upper: 128, liq: BIG / 2 });
+    // further must-refuse requests: a withdrawal amount of 2^128 - x (reads as +x when converted carelessly), and deposits that
+    // name a neighbouring tick array for one bound
+    a.push(Op::Dec { pos: 0, part: Part::Wrap(1_000_000_007), v2: false });
+    a.push(Op::Dec { pos: 1, part: Part::Wrap(3), v2: true });
+    a.push(Op::IncTa { pos: 1, liq: BIG / 4, lower_shift: 1, upper_shift: 0, v2: false });
+    a.push(Op::IncTa { pos: 2, liq: BIG / 4, lower_shift: 0, upper_shift: -1, v2: true });
     for pos in 0..npos {
         a.push(Op::Inc { pos, liq: 1, v2: pos % 2 == 0 });
         a.push(Op::Dec { pos, part: Part::Half, v2: pos % 2 == 1 });
